@@ -501,6 +501,16 @@ func replayMain(t *testing.T, cfg workerCfg, enc *json.Encoder) {
 		return
 	}
 	res := runOnce(t, sc, NewTapeReplay(rf.Tape), true)
+	if os.Getenv("VERIF_REPLAY_TWICE") != "" {
+		// (diagnosis of first-run-in-a-process effects: print both logs)
+		second := runOnce(t, sc, NewTapeReplay(rf.Tape), true)
+		for _, l := range res.Log {
+			fmt.Fprintln(os.Stderr, "A "+l)
+		}
+		for _, l := range second.Log {
+			fmt.Fprintln(os.Stderr, "B "+l)
+		}
+	}
 	status := "not-reproduced"
 	if hasSig(res, rf.Signature) {
 		status = "reproduced"
